@@ -485,7 +485,8 @@ class _RealFinder:
         triple = self.code[next_char : next_char + 3]
         if double not in ("==", "<=", ">=", "!="):
             for op in [single, double, triple]:
-                if op.endswith("="):
+                # e.g. ``(a.x) == 1``: ") =" ends with "=" but is no operator
+                if op.endswith("=") and all(c in "+-*/%&|^@<>:" for c in op[:-1]):
                     return op
 
     def get_primary_range(self, offset):
